@@ -61,7 +61,8 @@ def generate(rng, tier):
         w, h = rng.uniform(0.01, 1) * rng.choice([1, 10, 1000]), rng.uniform(0.01, 1) * rng.choice([1, 10, 1000])
         cases.append(["box conv %s" % " ".join(f32tok(x) for x in [l, t, w, h, rng.choice([1.0, 0.5])])])
         b = rand_box(rng, region=mag, smin=0.01, smax=rng.choice([1, 60, 1000]))
-        cases.append(["box %s %s" % ("polystale" if rng.random() < 0.25 else "poly", utok(*b))])
+        r_ = rng.random()
+        cases.append(["box %s %s" % ("polystale" if r_ < 0.25 else "polyregen" if r_ < 0.4 else "poly", utok(*b))])
         # gen_vertices() then the consuming rotate(): the box must not carry / clip with the polygon of the old angle
         cases.append(["box polyrot %s %s" % (utok(*b), f32tok(rng.choice([rng.uniform(-3.2, 3.2), math.pi / 2, 0.0, 1.0])))])
         cases.append(["box norm %s" % f32tok(rng.choice([rng.uniform(-50, 50), rng.uniform(-7, 7), 0.0, 2 * math.pi, -2 * math.pi, rng.uniform(0, 6.28)]))])
